@@ -215,11 +215,15 @@ def discobrackets(tree, stream, **params):
     separated from the tree by a tab (terminal space-separated).
     """
     terminals = trees.terminals(tree)
-    sentence = ' '.join([terminal.data['word'] for terminal in terminals])
+    words = [terminal.data['word'] for terminal in terminals]
+    sentence = ' '.join(words)
     for terminal in terminals:
         terminal.data['word'] = str(terminal.data['num'])
     write_brackets_subtree(tree, stream, **params)
     stream.write("\t" + sentence + "\n")
+    # the indices are only for the output, give the tokens back
+    for terminal, word in zip(terminals, words):
+        terminal.data['word'] = word
 
 
 def terminals_begin(stream, **params):
